@@ -12,6 +12,14 @@
 * `idPatternUses`      — every place in `src/` where the name `ID_PATTERN` is read, as
                          `file:scope:expression` (read with `ast`): WHICH method of the pattern is applied to WHAT
                          is part of its meaning (`match` anchors at the start only).
+* `schemaFields`       — the fields of `JsonSchemaObject` (parser/jsonschema.py) whose annotation mentions
+                         `JsonSchemaObject`, i.e. the keywords under which a subschema can stand, in source order
+                         (read with `ast` from the class body).
+* `parseRefDescends`, `parseIdDescends` — for the walks `JsonSchemaParser.parse_ref` / `parse_id`: the
+                         attributes of the walked object whose values REACH the recursive call (directly, through a
+                         loop variable, `.values()`, or through a helper function / generator that is handed the
+                         object and yields / returns subschemas), in order of first occurrence. A value whose
+                         origin cannot be read adds `<unrecognised>`.
 Anything that cannot be read gives the value `<unrecognised>`, which no reviewed value equals.
 """
 from __future__ import annotations
@@ -87,6 +95,160 @@ def id_pattern_uses() -> list[str]:
     return sorted(out)
 
 
+JSONSCHEMA_PY = ("src", "datamodel_code_generator", "parser", "jsonschema.py")
+
+
+def _jsonschema_tree():
+    return ast.parse(REPO.joinpath(*JSONSCHEMA_PY).read_text(encoding="utf-8"))
+
+
+def schema_fields() -> list[str]:
+    """fields of `JsonSchemaObject` whose annotation mentions `JsonSchemaObject`"""
+    try:
+        tree = _jsonschema_tree()
+    except (OSError, SyntaxError):
+        return ["<unrecognised>"]
+    for node in tree.body:
+        if isinstance(node, ast.ClassDef) and node.name == "JsonSchemaObject":
+            out = []
+            for st in node.body:
+                if isinstance(st, ast.AnnAssign) and isinstance(st.target, ast.Name):
+                    if any(isinstance(n, ast.Name) and n.id == "JsonSchemaObject" for n in ast.walk(st.annotation)) or (
+                        any(isinstance(n, ast.Constant) and isinstance(n.value, str) and "JsonSchemaObject" in n.value for n in ast.walk(st.annotation))
+                    ):
+                        out.append(st.target.id)
+            return out or ["<unrecognised>"]
+    return ["<unrecognised>"]
+
+
+class _Walks:
+    """which attributes of the walked object reach the recursive call of a walk (see module docstring)"""
+
+    def __init__(self, tree) -> None:
+        self.module_funcs = {n.name: n for n in tree.body if isinstance(n, (ast.FunctionDef, ast.AsyncFunctionDef))}
+        self.methods: dict = {}
+        for n in tree.body:
+            if isinstance(n, ast.ClassDef) and n.name == "JsonSchemaParser":
+                self.methods = {m.name: m for m in n.body if isinstance(m, (ast.FunctionDef, ast.AsyncFunctionDef))}
+
+    @staticmethod
+    def _params(fn) -> list[str]:
+        return [a.arg for a in fn.args.posonlyargs + fn.args.args]
+
+    def _callee(self, call: ast.Call):
+        """(function node, is_method) of a call to a module-level function or to a method of the parser through `self`"""
+        f = call.func
+        if isinstance(f, ast.Name) and f.id in self.module_funcs:
+            return self.module_funcs[f.id], False
+        if isinstance(f, ast.Attribute) and isinstance(f.value, ast.Name) and f.value.id in ("self", "cls") and f.attr in self.methods:
+            return self.methods[f.attr], True
+        return None, False
+
+    def _param_for(self, call: ast.Call, param: str):
+        """the parameter name of the callee that receives the bare name `param`, or None"""
+        fn, is_method = self._callee(call)
+        if fn is None:
+            return None, None
+        names = self._params(fn)
+        if is_method:
+            names = names[1:]
+        for i, a in enumerate(call.args):
+            if isinstance(a, ast.Name) and a.id == param and i < len(names):
+                return fn, names[i]
+        for kw in call.keywords:
+            if isinstance(kw.value, ast.Name) and kw.value.id == param and kw.arg in names:
+                return fn, kw.arg
+        return None, None
+
+    def produced(self, fn, param: str, stack: tuple = ()) -> list[str]:
+        """origins of the values a helper yields / returns when handed the walked object as `param`"""
+        if fn.name in stack:
+            return []
+        env = self._env(fn, param, stack + (fn.name,))
+        out: list[str] = []
+        for n in sorted(ast.walk(fn), key=lambda x: (getattr(x, "lineno", 0), getattr(x, "col_offset", 0))):
+            v = None
+            if isinstance(n, (ast.Yield, ast.YieldFrom, ast.Return)):
+                v = n.value
+            if v is not None:
+                out += self.origin(v, param, env, stack + (fn.name,)) or ["<unrecognised>"]
+        return list(dict.fromkeys(out))
+
+    def origin(self, e, param: str, env: dict, stack: tuple) -> list[str]:
+        if isinstance(e, ast.Attribute) and isinstance(e.value, ast.Name) and e.value.id == param:
+            return [e.attr]
+        if isinstance(e, ast.Name):
+            return list(env.get(e.id, []))
+        if isinstance(e, ast.Call):
+            if isinstance(e.func, ast.Attribute) and e.func.attr in ("values", "items", "keys", "copy") and not e.args:
+                return self.origin(e.func.value, param, env, stack)
+            fn, p = self._param_for(e, param)
+            if fn is not None:
+                return self.produced(fn, p, stack)
+            if isinstance(e.func, ast.Name) and e.func.id in ("list", "tuple", "iter", "reversed", "sorted", "chain") and e.args:
+                return [x for a in e.args for x in self.origin(a, param, env, stack)]
+            return []
+        if isinstance(e, (ast.Subscript, ast.Starred)):
+            return self.origin(e.value, param, env, stack)
+        if isinstance(e, (ast.List, ast.Tuple)):
+            return [x for a in e.elts for x in self.origin(a, param, env, stack)]
+        if isinstance(e, ast.BinOp):
+            return self.origin(e.left, param, env, stack) + self.origin(e.right, param, env, stack)
+        if isinstance(e, ast.BoolOp):
+            return [x for a in e.values for x in self.origin(a, param, env, stack)]
+        if isinstance(e, ast.IfExp):
+            return self.origin(e.body, param, env, stack) + self.origin(e.orelse, param, env, stack)
+        if isinstance(e, (ast.ListComp, ast.GeneratorExp)):
+            env2 = dict(env)
+            for g in e.generators:
+                for t in ast.walk(g.target):
+                    if isinstance(t, ast.Name):
+                        env2[t.id] = self.origin(g.iter, param, env2, stack)
+            return self.origin(e.elt, param, env2, stack)
+        return []
+
+    def _env(self, fn, param: str, stack: tuple) -> dict:
+        """variable -> origins, for loop targets and simple assignments (iterated to a fixed point)"""
+        env: dict = {}
+        for _ in range(4):
+            before = {k: list(v) for k, v in env.items()}
+            for n in ast.walk(fn):
+                if isinstance(n, (ast.For, ast.AsyncFor)):
+                    src = self.origin(n.iter, param, env, stack)
+                    for t in ast.walk(n.target):
+                        if isinstance(t, ast.Name):
+                            env[t.id] = list(dict.fromkeys(env.get(t.id, []) + src))
+                elif isinstance(n, ast.Assign) and len(n.targets) == 1 and isinstance(n.targets[0], ast.Name):
+                    src = self.origin(n.value, param, env, stack)
+                    env[n.targets[0].id] = list(dict.fromkeys(env.get(n.targets[0].id, []) + src))
+            if env == before:
+                break
+        return env
+
+    def descends(self, name: str) -> list[str]:
+        fn = self.methods.get(name)
+        if fn is None or len(self._params(fn)) < 2:
+            return ["<unrecognised>"]
+        param = self._params(fn)[1]
+        env = self._env(fn, param, (name,))
+        out: list[str] = []
+        found = False
+        for n in sorted(ast.walk(fn), key=lambda x: (getattr(x, "lineno", 0), getattr(x, "col_offset", 0))):
+            if isinstance(n, ast.Call) and isinstance(n.func, ast.Attribute) and n.func.attr == name and isinstance(n.func.value, ast.Name) \
+                    and n.func.value.id == "self" and n.args:
+                found = True
+                out += self.origin(n.args[0], param, env, (name,)) or ["<unrecognised>"]
+        return list(dict.fromkeys(out)) if found else ["<unrecognised>"]
+
+
+def walk_descends() -> dict:
+    try:
+        w = _Walks(_jsonschema_tree())
+    except (OSError, SyntaxError):
+        return {"parseRefDescends": ["<unrecognised>"], "parseIdDescends": ["<unrecognised>"]}
+    return {"parseRefDescends": w.descends("parse_ref"), "parseIdDescends": w.descends("parse_id")}
+
+
 def values() -> dict:
     from datamodel_code_generator import reference
     from datamodel_code_generator.reference import ModelResolver, ModelType
@@ -102,6 +264,8 @@ def values() -> dict:
         "idPattern": id_pattern()[0],
         "idPatternFlags": id_pattern()[1],
         "idPatternUses": id_pattern_uses(),
+        "schemaFields": schema_fields(),
+        **walk_descends(),
     }
 
 
@@ -127,5 +291,15 @@ def generate() -> str:
     out.append("def idPatternUses : List (List Char) := [")
     out.append(",\n".join(f"  {lean_str(u)} /- {_comment(u)} -/" for u in v["idPatternUses"]))
     out.append("]")
+    docs = {
+        "schemaFields": "fields of `JsonSchemaObject` whose annotation mentions `JsonSchemaObject`: the keywords under which a subschema can stand",
+        "parseRefDescends": "attributes of the walked object whose values reach the recursive call of `JsonSchemaParser.parse_ref`",
+        "parseIdDescends": "attributes of the walked object whose values reach the recursive call of `JsonSchemaParser.parse_id`",
+    }
+    for name, doc in docs.items():
+        out.append(f"/-- {doc} -/")
+        out.append(f"def {name} : List (List Char) := [")
+        out.append(",\n".join(f"  {lean_str(u)} /- {_comment(u)} -/" for u in v[name]))
+        out.append("]")
     out += ["", "end Dcg.Gen.ResolverTables", ""]
     return "\n".join(out)
